@@ -123,3 +123,56 @@ def panic_sites(env, rep, rule, entries, label):
         rep.extra.setdefault("assumed_nonpanicking_std_callees", [])
         rep.extra["assumed_nonpanicking_std_callees"] = sorted(set(rep.extra["assumed_nonpanicking_std_callees"]) | assumed)
     return bodies, n_sites
+
+
+def stateless(env, rep, rule, entry_pretties, what):
+    """The functions reachable from the entries read and write nothing that outlives the call except through their arguments:
+    no thread-local, no writable static (static mut / interior mutability).  A codec whose output depends on what an earlier
+    call left behind cannot be the identity / deterministic per input.  Decided on the MIR: references to statics are
+    constants naming the static item (driver: "static", "static_writable"), thread-locals are ThreadLocalRef rvalues and
+    calls of std::thread::LocalKey."""
+    import json
+    prog = env.prog
+    entries = []
+    for p in entry_pretties:
+        b = body_by_pretty(prog, p)
+        if b is None:
+            rep.anchor_missing(rule, p)
+            continue
+        entries.append(b.key)
+    if not entries:
+        return
+    seen = prog.reachable_from(entries)
+    # closures and promoteds of reachable bodies belong to them
+    keys = set(seen)
+    for b in prog.bodies.values():
+        if b.parent in keys or (b.kind in ("closure", "promoted") and any(b.key.startswith(k + "::") for k in seen)):
+            keys.add(b.key)
+    n = 0
+    for k in sorted(keys):
+        b = prog.bodies.get(k)
+        if b is None:
+            continue
+        n += 1
+        rep.fn(k)
+        bad = []
+        for bl in b.blocks:
+            if bl.get("cleanup"):
+                continue
+            for st in bl["stmts"]:
+                js = json.dumps(st)
+                if '"static_writable": true' in js or '"static_writable":true' in js:
+                    bad.append(("a writable static", st.get("span")))
+                if "/*tls*/" in js:
+                    bad.append(("a thread-local", st.get("span")))
+            t = bl["term"]
+            js = json.dumps({k2: v for k2, v in t.items() if k2 in ("args", "callee")})
+            if '"static_writable": true' in js or '"static_writable":true' in js:
+                bad.append(("a writable static", t.get("span")))
+            if t["k"] == "call" and "std::thread::local::LocalKey" in (t["callee"].get("pretty") or ""):
+                bad.append(("a thread-local (LocalKey)", t.get("span")))
+        for w, sp in bad[:2]:
+            rep.bad(rule, "%s|state-outside-arguments" % b.pretty, "%s uses %s: %s must depend on its arguments only (state kept between calls leaks one call's bytes or errors into the next)" % (b.pretty, w, what), sp)
+        if not bad:
+            rep.ok(rule, "%s|no-state-outside-arguments" % b.pretty, "uses no static or thread-local state", b.span, nontrivial=False)
+    rep.floor(rule, "functions reachable from %s" % ", ".join(x.split("::")[-1] for x in entry_pretties), n, len(entries))
